@@ -1,5 +1,6 @@
 import Xo.Model.CSem
 import Xo.Lemmas.CApiLayout
+import Xo.Lemmas.CApiFields
 /-! C02 — generated C accessors address the same bytes as the documented layout (property theorems only).
 
 Everything here is quantified over ALL part lists (so in particular over every access path that
@@ -153,6 +154,48 @@ theorem C02_array_item (itC : Ty) (it : Lay.Ty) (shape : List (Option Nat)) (ord
   · have hst' : (Lay.ainfo it shape).staticType = false := by simpa using hst
     simp only [hst', Bool.false_eq_true, ↓reduceIte] at h4 ⊢
     exact ⟨Int.natCast_nonneg _, by rw [Int.toNat_natCast]; exact h4⟩
+
+/-- **the C field step lands on the field**: on memory holding a struct the writer produced, the step the generated code takes
+for field `k` - add the class-level offset, or for the 2nd.. dynamically sized field load the word in its offset slot and add
+that - moves from the struct's address to the address at which the writer placed that field (the `k`-th part); the table of
+class-level offsets the generator works from is the layout model's (`cgen_fieldLayout`), whenever C-side and layout-side field
+types agree on their static sizes -/
+theorem C02_field_address (fsC : List (String × Ty)) (fs : List Lay.Ty) (vs : List Lay.Val) (hsz : Lay.SameSizes fsC fs)
+    (hw : Lay.WFFields fs) (hc : Lay.ConfFields fs vs) (hs : Lay.vsize (.struct fs) (.struct vs) < 2 ^ 64)
+    (k o : Nat) (t' : Lay.Ty) (v1 : Lay.Val) (hp : Lay.part (.struct fs) (.struct vs) k = some (o, t', v1))
+    (m0 : MemS.Mem) (off : Nat) (hb : off + Lay.vsize (.struct fs) (.struct vs) ≤ m0.length) (m' : MemS.Mem)
+    (hag : Lay.Agree m' (Lay.apply (Lay.shift off (Lay.patchesD (.struct fs) (.struct vs))) m0) off
+      (off + Lay.vsize (.struct fs) (.struct vs)))
+    (name : String) (ps : List Part) (idx : List Int) (ic : Nat) :
+    ∃ oc r, (fieldLayout fsC)[k]? = some (oc, r) ∧
+      docAddr (Lay.ldM m') 0 idx (.field name oc r :: ps) (off : Int) ic =
+        docAddr (Lay.ldM m') 0 idx ps ((off + o : Nat) : Int) ic := by
+  obtain ⟨l, h1, h2⟩ := Lay.field_loc_is_part fs vs hw hc hs k o t' v1 hp m0 off hb m' hag
+  refine ⟨l.1, l.2, by rw [Lay.cgen_fieldLayout fsC fs hsz]; exact h1, ?_⟩
+  obtain ⟨oc, r⟩ := l
+  cases r with
+  | false =>
+    simp only [Lay.resolveLoc, Bool.false_eq_true, if_false] at h2
+    subst h2
+    simp only [docAddr]
+    congr 1
+  | true =>
+    simp only [Lay.resolveLoc, if_true] at h2
+    subst h2
+    simp only [docAddr, Lay.ldM]
+    congr 1
+    push_cast
+    congr 4
+    rw [show (0 : Int) + (off : Int) + (oc : Int) = ((off + oc : Nat) : Int) by push_cast; omega, Int.toNat_natCast]
+
+/-- **both models size types alike**: for every reference-free type of the grammar the class-level size the C generator works
+with is the class-level size of the layout model (so the size hypotheses of `C02_array_item` and `C02_field_address` hold for
+every translated type, at every nesting level) -/
+theorem C02_static_sizes_agree (tc : Ty) (t : Lay.Ty) (h : Lay.toLay tc = some t) : Ty.ssize tc = t.ssize :=
+  Lay.ssize_toLay tc t h
+
+theorem C02_field_sizes_agree (fs : List (String × Ty)) (ts : List Lay.Ty) (h : Lay.toLayFields fs = some ts) :
+    Lay.SameSizes fs ts := Lay.sameSizes_toLay fs ts h
 
 /-! non-vacuity: `Int32[:, 3]` with 2 rows stored in F order at offset 8 of an 80-byte buffer (dimensions and strides in the
 header): the C arithmetic for index (1, 2) gives buffer offset 60, which is memory position 5, where the written item 15 is -/
